@@ -206,6 +206,34 @@ def check_recursion_pair(ctx, case):
             return
 
 
+def directed_pairs():
+    """Enumerated pair programs: a class with one or two invariants of every check_on combination and one public method
+    (own precondition and postcondition), rendered sync and async by the caller; all truth assignments."""
+    import itertools
+
+    combos = [(a,) for a in ("CALL", "SETATTR", "ALL")] + list(itertools.product(("CALL", "SETATTR", "ALL"), repeat=2))
+    for ons in combos:
+        for level in ("same-class", "sub-class"):
+            ids = G.Ids()
+            invs = [{"cid": ids.cid(), "on": on, "lam": False, "selfarg": True, "err": {"form": "default"}} for on in ons]
+            params, defaults = G.params_of("method")
+            m = {"name": "m", "kind": "method", "async": True, "params": params, "defaults": defaults, "body": {"ret": "obj"},
+                 "decos": [{"t": "ensure", "cid": ids.cid(), "args": [], "lam": False, "err": {"form": "default"}},
+                           {"t": "require", "cid": ids.cid(), "args": [], "lam": False, "err": {"form": "default"}}]}
+            if level == "same-class":
+                classes = [{"name": "K0", "bases": [], "root": "DBC", "shape": "plain", "invs": invs, "members": [m]}]
+            else:
+                classes = [{"name": "K0", "bases": [], "root": "DBC", "shape": "plain", "invs": invs[:1], "members": [m]},
+                           {"name": "K1", "bases": [0], "root": "DBC", "shape": "plain", "invs": invs[1:], "members": []}]
+            prog = {"funcs": [], "classes": classes}
+            last = len(classes) - 1
+            ops = [{"op": "new", "cls": last, "k": 0, "args": {}}, {"op": "call", "k": 0, "m": "m", "args": {"x": "a:x"}},
+                   {"op": "setattr", "k": 0}, {"op": "call", "k": 0, "m": "m", "args": {"x": "a:x"}}]
+            cids = D.all_cids(prog)
+            yield {"program": prog, "ops": ops, "codes": {c: ("T", "F") for c in cids}, "masks": list(range(1 << len(cids))),
+                   "target_kind": "method", "family": "pair", "directed_pair": [list(ons), level]}
+
+
 def run(ctx, tier, seed, shard, nshards):
     global _active
     warnings.simplefilter("ignore", RuntimeWarning)
@@ -220,6 +248,10 @@ def run(ctx, tier, seed, shard, nshards):
     D.explore(ctx, seed + 2, n // 3, st_flavour_case(False), judge_flavours, limit_all=la, n_sample=16,
               nontrivial=nontrivial)
     run_recursion_pairs(ctx, tier, seed + 3, n // 3)
+    if shard == 0:
+        for case in directed_pairs():
+            D.run_one(ctx, case, judge_pair, nontrivial=nontrivial)
+        ctx.count("directed_pair_programs", 24)
 
 
 def replay(ctx, case):
